@@ -42,7 +42,10 @@ class DocGen:
             if rng.random() < 0.5:
                 d["maxItems"] = rng.randint(1, 3)
         elif r < 0.85:
-            props = [(self.name().lower(), self.gen(depth + 1)) for _ in range(rng.randint(1, 4))]
+            # (an object may have no properties at all: {"type": "object", "properties": {}})
+            props = [(self.name().lower(), self.gen(depth + 1)) for _ in range(rng.choice([0, 1, 1, 2, 2, 3, 4]))]
+            if not props:
+                self.features.add("empty-object")
             # property names and $anchor names come from one pool in real documents: a property keyed by its own anchor (as the
             # COBOL generator writes them), or keyed by the anchor of a SIBLING
             anchored = [i for i, (_, v) in enumerate(props) if "$anchor" in v]
@@ -271,6 +274,14 @@ def explore(ck: Check, n_docs: int) -> None:
         if doc.get("type") in ATOMIC:
             continue
         g.add_refs(doc)
+        if i % 5 == 0 and doc.get("type") == "object" and "oneOf" not in doc:
+            # forward and backward references to an object WITHOUT properties
+            a = g.name()
+            props = dict(doc["properties"])
+            doc["properties"] = {f"fwd{a.lower()}": {"$ref": "#" + a}, **props,
+                                 f"e{a.lower()}": {"type": "object", "properties": {}, "$anchor": a},
+                                 f"bwd{a.lower()}": {"$ref": "#" + a}}
+            g.features.add("refs-to-empty-object")
         for f in g.features:
             ck.histogram["doc/" + f] += 1
         ck.case(str(doc), feature="document")
@@ -328,6 +339,20 @@ def explore(ck: Check, n_docs: int) -> None:
                     return f"$ref {d['$ref']} does not resolve to the node bearing that $anchor"
                 if t._attributes.get("$anchor") != d["$ref"][1:]:
                     return f"$ref {d['$ref']} resolves to a node that does not bear that $anchor"
+                # the reference BEHAVES as that sub-schema: its type, attributes, properties / items are the target's
+                try:
+                    tt = t
+                    hops = 0
+                    while type(tt).__name__ == "RefToSchema" and hops < 6:
+                        tt, hops = tt.ref_to, hops + 1
+                    if s.type != tt.type or s.attributes != tt.attributes:
+                        return f"$ref {d['$ref']}: type / attributes of the reference differ from those of its target"
+                    if type(tt).__name__ == "ObjectSchema" and list(s.properties) != list(tt.properties):
+                        return f"$ref {d['$ref']}: properties of the reference differ from those of its target"
+                    if type(tt).__name__ == "ArraySchema" and s.items is not tt.items:
+                        return f"$ref {d['$ref']}: items of the reference are not those of its target"
+                except BaseException as ex:  # noqa: BLE001
+                    return f"$ref {d['$ref']}: dereferencing the resolved reference raises {err_enum(ex)}"
             return None
 
         m = mirror(schema, doc)
@@ -363,7 +388,49 @@ def explore(ck: Check, n_docs: int) -> None:
             reqs.append("JSN nav " + ptxt + " " + " ".join(doc_tokens(doc)) + " | " + " ".join(val_tokens(inst)))
             impl.append(got)
             inputs.append({**inp, "instance": inst, "path": ptxt})
-        # wrong step kind -> TypeError
+        # wrong step kind at ANY node reached (also through references): TypeError; a name the object does not have: KeyError
+        def node_at(path: tuple) -> dict[str, Any]:
+            d2: dict[str, Any] = doc
+            for st in path:
+                hops2 = 0
+                while "$ref" in d2 and hops2 < 6:
+                    d2, hops2 = anchors[d2["$ref"][1:]], hops2 + 1
+                if d2.get("oneOf"):
+                    d2 = d2["oneOf"][0]
+                    hops2 = 0
+                    while "$ref" in d2 and hops2 < 6:
+                        d2, hops2 = anchors[d2["$ref"][1:]], hops2 + 1
+                d2 = d2["items"] if isinstance(st, int) else d2["properties"][st]
+            hops2 = 0
+            while "$ref" in d2 and hops2 < 6:
+                d2, hops2 = anchors[d2["$ref"][1:]], hops2 + 1
+            return d2
+
+        for p in all_paths(inst, doc, anchors)[:12]:
+            try:
+                tgt = node_at(p)
+                n = nav
+                for st in p:
+                    n = n.index(st) if isinstance(st, int) else n.name(st)
+            except BaseException:  # noqa: BLE001
+                continue
+            if tgt.get("oneOf"):
+                continue
+            ck.oracle_evaluations += 1
+            for kind in ("index", "name"):
+                try:
+                    (n.index(0) if kind == "index" else n.name("no-such-name"))
+                    got = "accepted"
+                except BaseException as ex:  # noqa: BLE001
+                    got = err_enum(ex)
+                ptxt = "/".join(("#" + str(s)) if isinstance(s, int) else s for s in p) or "."
+                if kind == "index" and tgt.get("type") != "array" and got != "TypeError":
+                    ck.fail("wrong-step-kind", f"path {ptxt}: index on a non-array schema gives {got}, not TypeError", {**inp, "instance": inst})
+                if kind == "name" and tgt.get("type") != "object" and got != "TypeError":
+                    ck.fail("wrong-step-kind", f"path {ptxt}: name on a non-object schema gives {got}, not TypeError", {**inp, "instance": inst})
+                if kind == "name" and tgt.get("type") == "object" and got != "KeyError":
+                    ck.fail("wrong-step-kind", f"path {ptxt}: a name the object does not have gives {got}, plain indexing gives KeyError",
+                            {**inp, "instance": inst})
         for p, kind in (((0,), "index"), (("zz",), "name")):
             try:
                 (nav.index(0) if kind == "index" else nav.name("zz"))
